@@ -481,12 +481,13 @@ def r16_11(ctx: Ctx) -> RuleResult:
 RELATIVE_SAMPLES = (
     ("/a/b", "0", ["a", "b"]), ("/a/b", "1", ["a"]), ("/a/b", "2", []), ("/a/b", "3", None), ("", "0", []), ("", "1", None),
     ("/a/b", "1/c", ["a", "c"]), ("/a/b", "0/c/d", ["a", "b", "c", "d"]), ("/a/b", "2/x~1y", ["x/y"]), ("/a/b", "0/m~0n", ["a", "b", "m~n"]), ("", "0/x", ["x"]),
-    ("/a/b", "1/", ["a", ""]), ("/a/b", "0/\u00e9", ["a", "b", "\u00e9"]),
+    ("/a/b", "1/", ["a", ""]), ("/a/b", "0/\u00e9", ["a", "b", "\u00e9"]), ("/a/b", "1/x\ny/z", ["a", "x\ny", "z"]),
     ("/a/1", "0+1", ["a", "2"]), ("/a/1", "0-1", ["a", "0"]), ("/a/1", "0-2", None), ("/a/10", "0+15", ["a", "25"]), ("/a/2/c", "1-2", ["a", "0"]),
     ("/a/2/c", "1+1/d", ["a", "3", "d"]), ("/7", "0+100000000000", ["100000000007"]),
     ("/a/b", "0#", ["a", "#b"]), ("/a/3", "1#", ["#a"]), ("/a/3", "0#", ["a", "#3"]), ("", "0#", None), ("/a/b", "2#", None), ("/a/3/x", "1+2#", ["a", "#5"]),
 )
-RELATIVE_TEXTS = ("0", "1", "10", "0/a", "2/a~1b/c~0d", "0#", "3#", "1+2/x", "3-1#", "0/", "1/\u00e9", "0/a b", "10/0/1", "0+12345678901234567890/x", "1/~01")
+RELATIVE_TEXTS = ("0", "1", "10", "0/a", "2/a~1b/c~0d", "0#", "3#", "1+2/x", "3-1#", "0/", "1/\u00e9", "0/a b", "10/0/1", "0+12345678901234567890/x", "1/~01",
+                  "0/a\nb", "1/\n", "0/x/\r\n/y", "2/\u2028")
 
 
 def r16_12(ctx: Ctx) -> RuleResult:
@@ -525,7 +526,7 @@ def r16_12(ctx: Ctx) -> RuleResult:
             rr.bad(s_fn, s_fn.node, f"the relative pointer {text!r} prints as {got!r}", construct=f"str(RelativeJSONPointer({text!r})) == {got!r}")
     for base, rel, want in RELATIVE_SAMPLES:
         model = Model(ctx, "R16.12")
-        model.whole_bodies = model.auto_construct = True
+        model.whole_bodies = model.auto_construct = model.exact_exceptions = True
         try:
             b = model.new("jsonpath.pointer.JSONPointer", base)
         except _ConstructorRaises:
@@ -534,7 +535,14 @@ def r16_12(ctx: Ctx) -> RuleResult:
         shown = f"JSONPointer({base!r}).to({rel!r})"
         if r is RAISES:
             if want is None:
-                rr.ok(to_fn.loc(), f"{shown} is refused")
+                c = model.last_raised
+                if not c:
+                    raise AnalysisError(f"R16.12: the class of the exception that refuses {shown} cannot be determined")
+                if ctx.repo.is_subclass(c, "RelativeJSONPointerError"):
+                    rr.ok(to_fn.loc(), f"{shown} is refused with {c.split('.')[-1]}")
+                else:
+                    rr.bad(to_fn, to_fn.node, f"{shown} is refused with {c.split('.')[-1]}, which is not a relative-pointer error (`except RelativeJSONPointerError` "
+                           "does not catch it)", construct=f"{shown} raises {c.split('.')[-1]}")
             else:
                 rr.bad(to_fn, to_fn.node, f"{shown} is refused; the draft defines the result {want}", construct=f"{shown} raises")
             continue
